@@ -210,6 +210,34 @@ class SymArray:
     return sum_(self, axis=axis, keepdims=keepdims)
 
   # ---- arithmetic ----------------------------------------------------------
+  # in-place operators: NumPy computes in the promoted type and casts the
+  # result back to the dtype of the left operand ('same_kind' casting)
+  def _inplace(self, op, o):
+    r = binop(op, self, o)
+    if not isinstance(r, SymArray):
+      r = SymArray.from_numpy(_real_np.asarray(r))
+    if r.dtype != self.dtype:
+      if not _real_np.can_cast(r.dtype, self.dtype, casting='same_kind'):
+        raise TypeError(
+            f"Cannot cast ufunc '{op}' output from {r.dtype} to {self.dtype} "
+            "with casting rule 'same_kind'")
+      r = astype(r, self.dtype)
+    if r.shape != self.shape:
+      raise ValueError('non-broadcastable output operand')
+    return r
+
+  def __iadd__(self, o):
+    return self._inplace('add', o)
+
+  def __isub__(self, o):
+    return self._inplace('sub', o)
+
+  def __imul__(self, o):
+    return self._inplace('mul', o)
+
+  def __itruediv__(self, o):
+    return self._inplace('div', o)
+
   def __add__(self, o):
     return binop('add', self, o)
 
